@@ -568,8 +568,10 @@ def check(eng, rep, prop):
         site = site_of(prog, fi, call)
         lit = next((a.value for a in call.args if isinstance(a, ast.Constant) and isinstance(a.value, str)), "?")
         if gen.endswith("get_next_free"):
+            from .counters import _single_defs, _canon
+            coll_txt = _canon(call.args[2], _single_defs(fi.node)) if len(call.args) == 3 else "?"    # through local aliases
             ok = len(call.args) == 3 and isinstance(call.args[1], ast.Name) and \
-                COLLECTION_FOR_TYPE.get(call.args[1].id) == ast.unparse(call.args[2])
+                COLLECTION_FOR_TYPE.get(call.args[1].id) == coll_txt
             if ok:
                 rep.holds("R5", prop + ".R5", fi.qname, "fresh:" + lit,
                           "name obtained from the freshness loop, checked against %s" % ast.unparse(call.args[2]), site=site)
